@@ -1,7 +1,7 @@
 #!/bin/bash
 # usage: tools/seed_import.sh <Cxx> <A|B> [patchfile]   validate a seeded change in a scratch worktree and copy it to /verif/seeded/<Cxx>-<A|B>/
 set -u
-ID="$1"; V="$2"; SRC="/tmp/seedout/$ID/$V"; P="${3:-$SRC/patch.diff}"
+ID="$1"; V="$2"; SRC="${SEEDSRC:-/tmp/seedout}/$ID/$V"; P="${3:-$SRC/patch.diff}"
 export GOFLAGS=-mod=mod GOPROXY=off GOSUMDB=off GOTOOLCHAIN=local
 WT=$(mktemp -d /tmp/wt-seed-XXXX); rmdir "$WT"
 git -C /repo worktree add -q --detach "$WT" HEAD || exit 2
@@ -20,7 +20,7 @@ cp "$SRC/demo_test.go" jen/zz_demo_test.go
 if go test -vet=off -count=1 ./jen >/tmp/seed-demo.log 2>&1; then DEMO=pass; else DEMO=fail; fi
 echo "$ID-$V: clean-demo=$CLEAN build=$BUILD suite=$SUITE demo-with-patch=$DEMO"
 if [ "$CLEAN" = pass ] && [ "$BUILD" = ok ] && [ "$SUITE" = pass ] && [ "$DEMO" = fail ]; then
-  D="/verif/seeded/$ID-$V"; mkdir -p "$D"
+  D="/verif/seeded/$ID-${NAME:-$V}"; mkdir -p "$D"
   cp "$P" "$D/patch.diff"; cp "$SRC/demo_test.go" "$D/demo_test.go"; cp "$SRC/NOTES.md" "$D/NOTES.md" 2>/dev/null
   [ "$P" != "$SRC/patch.diff" ] && cp "$SRC/patch.diff" "$D/patch.orig.diff"
   HEADC=$(git -C /repo rev-parse --short HEAD)
@@ -31,7 +31,7 @@ notes=open(os.path.join(d,"NOTES.md")).read() if os.path.exists(os.path.join(d,"
 meta_path=os.path.join(d,"meta.json")
 meta=json.load(open(meta_path)) if os.path.exists(meta_path) else {}
 meta.update({
- "property": pid, "variant": v, "applies_to_repo_commit": head,
+ "property": pid, "variant": os.path.basename(d).split("-")[-1], "applies_to_repo_commit": head,
  "validated": {"demo_passes_without_patch": True, "builds_with_patch_(also_-tags_verif)": True,
                "existing_suite_passes_with_patch": True, "demo_fails_with_patch": True,
                "commands": ["git apply patch.diff", "go build ./... && go build -tags verif ./...", "go test -vet=off -count=1 ./...", "cp demo_test.go jen/zz_demo_test.go && go test -vet=off -count=1 ./jen"]},
